@@ -375,7 +375,10 @@ fn sheet_name(rng: &mut Rng, has_ex1: bool) -> String {
             })
             .collect()
     };
-    match rng.below(12) {
+    match rng.below(14) {
+        // a name that merely BEGINS like a repository directory (no '/' behind it) stays in the base game
+        12 => format!("{}{}", *rng.pick(&["Ex1", "ex1", "EX1", "ex2", "Ex3", "ffxiv", "ex"]), word(rng)),
+        13 => format!("{}{}/{}", *rng.pick(&["ex1", "Ex1", "ex2"]), word(rng), word(rng)),
         0 => "Item".to_string(),
         1 => "Achievement".to_string(),
         2 => format!("quest/{:03}/{}_{:05}", rng.below(40), word(rng), rng.below(100000)),
